@@ -18,6 +18,7 @@ import (
 	"encoding/hex"
 	"fmt"
 	"io"
+	"net/http"
 	"os"
 	"reflect"
 	"runtime"
@@ -95,6 +96,7 @@ func c07Stream(run *ev.Run, cc codecCounts, id string, recs []vegeta.Result) pyr
 		run.Violate(fmt.Sprintf("C07/%s/%s/%s", oracle, codec, class),
 			fmt.Sprintf("%s codec, oracle %s, record %d: %s %s", codec, oracle, rec, class, msg), w)
 	}
+	c07CheckEqualNotion(run, cc, recs)
 	for _, codec := range codecNames {
 		encd, msg := codecEncodeStream(codec, recs)
 		if msg != "" {
@@ -324,4 +326,84 @@ func runC07(c *Ctx) int {
 	}
 	run.FloorDistinct(c.Pick(8000, 400000))
 	return run.Finish()
+}
+
+// c07CheckEqualNotion: "an equal sequence" is only worth something if the library's own notion of
+// equality (Result.Equal, which the repository's round-trip test relies on) tells results apart
+// that differ: a result equals its deep copy, and differs from a copy changed in exactly one field
+// (another letter case in the body, nil instead of empty headers, one nanosecond, ...).
+func c07CheckEqualNotion(run *ev.Run, cc codecCounts, recs []vegeta.Result) {
+	deep := func(r vegeta.Result) vegeta.Result {
+		c := r
+		if r.Body != nil {
+			c.Body = append([]byte{}, r.Body...)
+		}
+		if r.Headers != nil {
+			c.Headers = http.Header{}
+			for k, vs := range r.Headers {
+				c.Headers[k] = append([]string(nil), vs...)
+			}
+		}
+		return c
+	}
+	flipCase := func(b []byte) []byte {
+		out := append([]byte{}, b...)
+		for i, x := range out {
+			if (x >= 'a' && x <= 'z') || (x >= 'A' && x <= 'Z') {
+				out[i] = x ^ 0x20
+				return out
+			}
+		}
+		return append(out, 'x')
+	}
+	for i := 0; i < len(recs) && i < 2; i++ {
+		r := recs[i]
+		viol := func(class, msg string) {
+			run.Violate("C07/equal/"+class, "Result.Equal, the library's notion of equal results: "+msg, c07Witness{Oracle: "equal", Record: i, Message: msg, Records: [][]any{codecDump(&r)}})
+		}
+		func() {
+			defer func() {
+				if p := recover(); p != nil {
+					viol("panic", fmt.Sprintf("panics: %v", p))
+				}
+			}()
+			if c := deep(r); !r.Equal(c) || !c.Equal(r) {
+				viol("copy-not-equal", "a result does not equal its own deep copy")
+				return
+			}
+			changed := map[string]func(c *vegeta.Result){
+				"Attack": func(c *vegeta.Result) { c.Attack += "x" }, "Seq": func(c *vegeta.Result) { c.Seq++ }, "Code": func(c *vegeta.Result) { c.Code++ },
+				"Timestamp": func(c *vegeta.Result) { c.Timestamp = c.Timestamp.Add(1) }, "Latency": func(c *vegeta.Result) { c.Latency++ },
+				"BytesOut": func(c *vegeta.Result) { c.BytesOut++ }, "BytesIn": func(c *vegeta.Result) { c.BytesIn++ }, "Error": func(c *vegeta.Result) { c.Error = string(flipCase([]byte(c.Error))) },
+				"Body":   func(c *vegeta.Result) { c.Body = flipCase(c.Body) },
+				"Method": func(c *vegeta.Result) { c.Method = string(flipCase([]byte(c.Method))) }, "URL": func(c *vegeta.Result) { c.URL = string(flipCase([]byte(c.URL))) },
+				"Headers": func(c *vegeta.Result) {
+					switch {
+					case c.Headers == nil:
+						c.Headers = http.Header{} // nil and empty are told apart by all three codecs
+					case len(c.Headers) == 0:
+						c.Headers = nil
+					default:
+						for k, vs := range c.Headers {
+							if len(vs) > 0 {
+								vs[0] = string(flipCase([]byte(vs[0])))
+							} else {
+								c.Headers[k] = []string{"x"}
+							}
+							break
+						}
+					}
+				},
+			}
+			for field, change := range changed {
+				c := deep(r)
+				change(&c)
+				cc["equal_notion_checks"]++
+				if r.Equal(c) || c.Equal(r) {
+					viol("blind-to/"+field, fmt.Sprintf("two results that differ only in %s are called equal (%s vs %s)", field, codecShorten(fmt.Sprint(codecDump(&r))), codecShorten(fmt.Sprint(codecDump(&c)))))
+					return
+				}
+			}
+		}()
+	}
 }
